@@ -51,7 +51,7 @@ fn gen_population(t: &mut Tape, masters: &[u8], max_delay: u64) -> BTreeMap<u8, 
         if masters.contains(&a) {
             continue;
         }
-        let k = *t.pick(&[PeerKind::StatusOnly, PeerKind::DpSlave, PeerKind::DpSlave, PeerKind::Silent, PeerKind::FdlOnly, PeerKind::OddStatus]);
+        let k = *t.pick(&[PeerKind::StatusOnly, PeerKind::DpSlave, PeerKind::Defective, PeerKind::Silent, PeerKind::FdlOnly, PeerKind::OddStatus]);
         m.insert(a, (k, 11 + t.below(max_delay - 10)));
     }
     m
